@@ -466,7 +466,7 @@ def write_trig(rows, flags=frozenset()):
 
 XML_FLAGS = ["nodeid-all", "nested", "property-attributes", "typed-node", "parse-resource", "parse-collection", "lang-inherit", "char-refs", "cdata",
              "default-ns", "xml-base", "rdf-id", "single-description", "rdf-li", "entity-decl", "no-xml-decl", "xml-comments", "indent", "no-rdf-root",
-             "single-quote-decls", "xml-file-base"]
+             "single-quote-decls", "xml-file-base", "parse-literal", "parse-literal-hoisted"]
 
 
 def xml_escape(s, flags, attr=False):
@@ -565,6 +565,16 @@ def write_rdfxml(rows, flags=frozenset()):
         return lit_elem_q(qname(p[1]), o, inherited_lang)
 
     def lit_elem_q(q, o, inherited_lang=None):
+        if o[2] == RDF + "XMLLiteral" and ("parse-literal" in flags or "parse-literal-hoisted" in flags):
+            # the lexical form of an rdf:XMLLiteral written as XML content (it is exclusive canonical XML: each top-level element declares the
+            # namespaces it uses); "hoisted": those declarations are made once on the root element instead
+            content = o[1]
+            if "parse-literal-hoisted" in flags and ' xmlns="' not in content:
+                for m in set(re.findall(r' xmlns:([A-Za-z]+)="([^"]*)"', content)):
+                    if m[1] not in ns or ns[m[1]] == m[0]:
+                        ns[m[1]] = m[0]
+                        content = content.replace(' xmlns:%s="%s"' % m, "")
+            return '<%s rdf:parseType="Literal">%s</%s>' % (q, content, q)
         attrs = ""
         if o[3] and o[3] != inherited_lang:
             attrs += ' xml:lang="%s"' % o[3]
